@@ -87,6 +87,21 @@ def _job(args):
             return (kind, spec['id'], 'MISSED',
                     'expected %s, reported %s' % (
                         spec['expect'], sorted({f[0] for f in found})))
+        elif kind == 'seed':
+            import subprocess
+            p = subprocess.run(
+                ['git', 'apply', os.path.join(VERIF, 'seeded', spec['id'],
+                                              'patch.diff')],
+                cwd=d, capture_output=True, text=True)
+            if p.returncode:
+                return (kind, spec['id'], 'skipped',
+                        'patch does not apply to this tree')
+            found = _run_rules(pid, d)
+            hit = sorted({f[0] for f in found if f[0] in spec['expect']})
+            if hit:
+                return (kind, spec['id'], 'detected', ','.join(hit))
+            return (kind, spec['id'], 'MISSED', 'expected %s, reported %s' % (
+                spec['expect'], sorted({f[0] for f in found})))
         else:
             import selftest.silent as sl
             why = sl.apply(spec, d)
@@ -112,7 +127,18 @@ def run_for_property(pid, report, jobs=16, seed=0, repo=None, strict=None,
     mine = [m for m in mutants if pid in m['props']]
     base = sorted({f.rule + ' | ' + f.construct
                    for rc in report.rules for f in rc.findings})
+    seeds = []
+    sd = os.path.join(VERIF, 'seeded')
+    for sid in sorted(os.listdir(sd)) if os.path.isdir(sd) else []:
+        mp = os.path.join(sd, sid, 'meta.json')
+        if not os.path.exists(mp):
+            continue
+        meta = json.load(open(mp))
+        exp = meta.get('detected_by', {}).get(pid)
+        if exp:
+            seeds.append({'id': sid, 'expect': exp})
     work = [('mutant', m, repo, pid) for m in mine] + \
+           [('seed', x, repo, pid) for x in seeds] + \
            [('silent', s, repo, pid) for s in silent]
     if not work:
         return
@@ -124,7 +150,7 @@ def run_for_property(pid, report, jobs=16, seed=0, repo=None, strict=None,
     for kind, mid, status, info in results:
         rows.append({'kind': kind, 'id': mid, 'status': status,
                      'info': info})
-        if kind == 'mutant':
+        if kind in ('mutant', 'seed'):
             if status == 'detected':
                 det += 1
             elif status == 'skipped':
@@ -156,7 +182,8 @@ def run_for_property(pid, report, jobs=16, seed=0, repo=None, strict=None,
            'variants unchanged, %d changed' % (
                det, miss, skip, err, sil_ok, sil_bad))
     report.extra['selftest'] = {
-        'must_fire_total': len(mine), 'detected': det, 'missed': miss,
+        'must_fire_total': len(mine) + len(seeds),
+        'seeded_changes': len(seeds), 'detected': det, 'missed': miss,
         'skipped': skip, 'errors': err, 'silent_total': len(silent),
         'silent_unchanged': sil_ok, 'silent_changed': sil_bad,
         'rows': rows}
